@@ -223,6 +223,24 @@ def r19_4(ctx):
               sample={"overriders": overriders})
 
 
+    # (c) guesses declared as expressions (set_initial(x, ocp.t), set_initial(u, 1/p)): the imperative pipeline evaluates the guess table of
+    # every stage anew on each set_initial (Stage.set_initial -> apply_initial -> <method>.set_initial reads stage._initial), so they follow
+    # the T/t0/parameter values given later; to_function must replay that table with its arguments substituted (D80)
+    readers = ["%s.%s" % (c, m.name) for c in P.subclasses("DirectMethod") for m in P.cls(c).methods.values() if m.name != "to_function"
+               and any(is_call_to(x, "apply_initial") and any(isinstance(a, ast.Attribute) and a.attr == "_initial" for a in x.args) for x in walk_no_nested(m.node))]
+    evaluators = [c for c in P.subclasses("DirectMethod") if P.cls(c).methods.get("set_initial") and any(is_call_to(x, "value") and len(x.args) == 2 for x in ast.walk(P.cls(c).methods["set_initial"].node))]
+    if not readers or not evaluators:
+        raise AnalysisError("the imperative evaluation of the guess table (apply_initial(stage, opti, stage._initial); opti.debug.value(expr, opti_initial)) was not found (anchor moved?)")
+    for c in sorted(c for c in P.subclasses("DirectMethod") if not P.subclasses(c)[1:]):
+        root, chain = _to_function_closure(P, c)
+        replays = any(isinstance(x, ast.Attribute) and x.attr in ("_initial", "initial") and not (isinstance(x.value, ast.Attribute) and x.value.attr == "opti") and ast.unparse(x.value) in ("stage", "s", "self", "stage._augmented", "ocp")
+                      and x.attr == "_initial" for g in chain for x in ast.walk(g.node))
+        ctx.check(replays, "to_function of %s re-evaluates the guesses declared as expressions" % c,
+                  detail="set_initial(x, ocp.t) / set_initial(u, 1/p): f(p, T) starts from the guess evaluated with the values current when the function was made, set_value; set_initial; solve() re-evaluates it",
+                  expected="the guess table (stage._initial) replayed symbolically in the function, like %s.set_initial evaluates it (%s)" % (evaluators[0], readers[0]), found="stage._initial is not consulted by any to_function of the class", fi=root,
+                  sample={"class": c})
+
+
 OPTI_WRITERS = ("set_value", "set_initial", "subject_to", "minimize", "add_objective", "clear_objective")
 
 
